@@ -49,6 +49,9 @@ type World struct {
 	recording, mayRecord map[*ssa.Function]bool
 	advancing map[*ssa.Function]bool
 	lexDeep     *lbEngine
+	delimDone bool
+	delimCtx  int
+	delimFail []string
 	mustAdv     map[*ssa.Function]bool
 	mustAdvLeak map[*ssa.Function]*ssa.BasicBlock
 }
